@@ -39,7 +39,7 @@ class Fn:
     upvars: dict = field(default_factory=dict)   # closure bodies: captured field index -> (source name, by_ref)
 
 
-def dump_mir(repo: Path, features_default: bool = True, timeout=600, features: str = "") -> str:
+def dump_mir(repo: Path, features_default: bool = True, timeout=600, features: str = "", package: str = "rcgen", target=("--lib",)) -> str:
     """Copy the workspace to a scratch directory and dump rcgen's MIR (rustc nightly, -Zunpretty=mir)."""
     scratch = Path(tempfile.mkdtemp(prefix="rcgen-mir-", dir=os.environ.get("VERIF_SCRATCH") or tempfile.gettempdir()))
     try:
@@ -49,7 +49,7 @@ def dump_mir(repo: Path, features_default: bool = True, timeout=600, features: s
                 shutil.copytree(src, scratch / item, ignore=shutil.ignore_patterns("target"))
             else:
                 shutil.copy(src, scratch / item)
-        cmd = ["cargo", "+nightly", "rustc", "--offline", "-p", "rcgen", "--lib"]
+        cmd = ["cargo", "+nightly", "rustc", "--offline", "-p", package] + list(target)
         if not features_default:
             cmd.append("--no-default-features")
         if features:
